@@ -2,6 +2,7 @@ SPECIFICATION Spec
 CONSTANTS
   MaxSteps = 5
   Inputs = {1, 2}
+  ZeroCopyAtEnd = FALSE
   Emit = TRUE
 CONSTRAINT EmitHistory
 CHECK_DEADLOCK FALSE
